@@ -81,6 +81,17 @@ def main():
             except Exception as e:
                 print('corpus: could not keep', rp, repr(e))
             break
+    # the kept input must be a consequence of the change: on the unchanged tree the check has to stay quiet with it
+    for pid in list(res['checks']):
+        kept = [os.path.join(ROOT, 'corpus', pid, f) for f in (f'seeded-{name}.json', f'seeded-{name}.py')]
+        kept = [k for k in kept if os.path.exists(k)]
+        if not kept: continue
+        p = sh([os.path.join(ROOT, 'check'), pid, '--tier', 'quick'], cwd=ROOT)
+        sh(['git', '-C', ROOT, 'checkout', '--', 'evidence'])
+        if p.returncode != 0:
+            for k in kept: os.unlink(k)
+            res['checks'][pid]['failing_input_fails_on_unchanged_tree'] = True
+            print(f'corpus: the input kept for {pid} also fails on the unchanged tree (a defect or a false alarm independent of this change): removed, look at it')
     json.dump(res, open(os.path.join(d, 'result.json'), 'w'), indent=1)
     print(json.dumps({k: res[k] for k in ('seed', 'caught', 'demo_unchanged', 'demo_changed')}, indent=1)[:1500])
     for pid, c in res['checks'].items():
